@@ -498,6 +498,8 @@ package otp
 //@   ensures[digits] u != nil && err == nil ==> (dg == "" ==> param.Digits == 6) && (dg != "" ==> isint(dg) && param.Digits == intval(dg))
 //@   ensures[period] u != nil && err == nil ==> (pd == "" ==> param.Period == 30) && (pd != "" ==> isint(pd) && param.Period == intval(pd))
 //@   ensures[algorithm] u != nil && err == nil ==> (al == "" ==> param.Algorithm == 0) && (al != "" ==> hashname(al) && param.Algorithm == hashof(al))
+//@   ensures[accept] u != nil && u.Scheme == "otpauth" && (lower(u.Host) == "totp" || lower(u.Host) == "hotp") && nparts(label, ":") >= 2 &&
+//@ |   (dg == "" || (isint(dg) && 0 <= intval(dg) && intval(dg) <= 255)) && (al == "" || hashname(al)) && (pd == "" || (isint(pd) && intval(pd) >= 0)) ==> err == nil
 
 //@ macro algname(a) = a == 0 ? "SHA1" : (a == 1 ? "SHA256" : (a == 2 ? "SHA512" : ""))
 //@ macro urlok(p) = p.Issuer != "" && p.AccountName != "" && p.Secret != ""
